@@ -192,6 +192,89 @@ def multi_worker(kp, job):
     return {'records': records}
 
 
+def nested_worker(kp, job):
+    """three spines (**kern, a non-kern type, **kern); in the FIRST spine a voice splits, one of the two sub-voices
+    splits again, and all are joined back (three in one row, or pairwise); below the joins the LAST **kern spine holds
+    notes with signifiers.  Two layouts of the same signifiers must export alike, without import errors (a join that
+    leaves a path too many shifts every column to its right under its neighbour's importer)"""
+    seed, idx = job
+    rng = random.Random(seed * 373587883 + idx)
+    records = []
+    for it in range(12):
+        mid = rng.choice(['**dynam', '**text', '**harm', '**fing', '**mxhm'])
+
+        def kc(sp):
+            c = docs._data_cell(rng, '**kern', sp, p_null=0.1, chords=(rng.random() < 0.3), rest_in_chord=0)
+            return c
+
+        def mc():
+            return docs.Cell(rng.choice(['.', '.', 'f', 'ff', 'p', '1', 'la']), 'free', 1, mid)
+
+        def S(t, sp, ht):
+            return docs.Cell(t, 'interp', sp, ht)
+        rows = [[docs.Cell('**kern', 'header', 0, '**kern'), docs.Cell(mid, 'header', 1, mid), docs.Cell('**kern', 'header', 2, '**kern')]]
+        if rng.random() < 0.7:
+            rows.append([S('*clefF4', 0, '**kern'), S('*', 1, mid), S('*clefG2', 2, '**kern')])
+        bar = 1
+
+        def barline(n):
+            nonlocal bar
+            rows.append([docs.Cell(f'={bar}', 'barline', 0 if i < n - 2 else (1 if i == n - 2 else 2), '**kern' if i != n - 2 else mid) for i in range(n)])
+            bar += 1
+        barline(3)
+        rows.append([kc(0), mc(), kc(2)])
+        rows.append([S('*^', 0, '**kern'), S('*', 1, mid), S('*', 2, '**kern')])
+        rows.append([kc(0), kc(0), mc(), kc(2)])
+        inner = rng.randrange(2)
+        rows.append([S('*^' if inner == 0 else '*', 0, '**kern'), S('*^' if inner == 1 else '*', 0, '**kern'), S('*', 1, mid), S('*', 2, '**kern')])
+        for _ in range(rng.randint(1, 2)):
+            rows.append([kc(0), kc(0), kc(0), mc(), kc(2)])
+        if rng.random() < 0.5:
+            rows.append([S('*v', 0, '**kern'), S('*v', 0, '**kern'), S('*v', 0, '**kern'), S('*', 1, mid), S('*', 2, '**kern')])
+        else:
+            first = ['*v', '*v', '*'] if inner == 0 else ['*', '*v', '*v']
+            rows.append([S(t, 0, '**kern') for t in first] + [S('*', 1, mid), S('*', 2, '**kern')])
+            if rng.random() < 0.6:
+                rows.append([kc(0), kc(0), mc(), kc(2)])
+            rows.append([S('*v', 0, '**kern'), S('*v', 0, '**kern'), S('*', 1, mid), S('*', 2, '**kern')])
+        for _ in range(rng.randint(1, 3)):
+            rows.append([kc(0), mc(), kc(2)])
+        if rng.random() < 0.5:
+            barline(3)
+            rows.append([kc(0), mc(), kc(2)])
+        rows.append([docs.Cell('*-', 'spineop', i, '**kern' if i != 1 else mid) for i in range(3)])
+        text = '\n'.join('\t'.join(c.text for c in r) for r in rows) + '\n'
+
+        def other(c):
+            if c.kind in ('note', 'rest') and c.ast is not None:
+                return relayout_note(rng, c.ast)
+            if c.kind == 'chord':
+                return ' '.join(relayout_note(rng, n) for n in c.ast['notes'])
+            return c.text
+        text2 = '\n'.join('\t'.join(other(c) for c in r) for r in rows) + '\n'
+        viol = []
+        w = {'text': text, 'other_layout': text2}
+        try:
+            d1, e1 = kp.loads(text)
+            d2, e2 = kp.loads(text2)
+            if e1 or e2:
+                viol.append(('canonical', f'nested split and joins: a well-formed document imports with errors ({(e1 or e2)[0].encoding!r})', w))
+            else:
+                t1, t2 = kp.dumps(d1), kp.dumps(d2)
+                if t1 != t2:
+                    a, b = t1.split('\n'), t2.split('\n')
+                    k = next((i for i in range(min(len(a), len(b))) if a[i] != b[i]), min(len(a), len(b)))
+                    viol.append(('canonical', f'nested split and joins: two layouts of the same signifiers export differently at line {k + 1}: '
+                                              f'{a[k] if k < len(a) else None!r} vs {b[k] if k < len(b) else None!r}', w))
+                d3, e3 = kp.loads(t1)
+                if e3 or kp.dumps(d3) != t1:
+                    viol.append(('idempotent', 'nested split and joins: the default export is not a fixed point', w))
+        except Exception as e:
+            viol.append(('reimport-raises', f'nested split and joins: {type(e).__name__} on a well-formed document', w))
+        records.append(engine.rec('nested', viol=viol, kind='nested-split-joins', key=('nested', text)))
+    return {'records': records}
+
+
 def sweep_worker(kp, job):
     cells = job
     records = []
@@ -219,6 +302,7 @@ def run(chk):
                 'more than one character (&( &) Ww TT xx yy [y ??) mixed with their parts, and rests with an explicit staff position: fixed point on kernpy alone; non-trivial = distinct cell / text')
     results = engine.pmap(sweep_worker, jobs) + engine.pmap(doc_worker, [(chk.seed, i) for i in range(ndocs)])
     results += engine.pmap(multi_worker, [(chk.seed, i) for i in range(core.budget(chk, full, 16, 160))])
+    results += engine.pmap(nested_worker, [(chk.seed, i) for i in range(core.budget(chk, full, 8, 80))])
     engine.settle(chk, results, model)
     # a cell on which model and kernpy disagree is the first place to look for a failing input: run the property on it
     import kernpy as kp
